@@ -1,5 +1,6 @@
 From Coq Require Import Extraction ExtrOcamlBasic QArith Qabs Qreduction ZArith NArith.
-From SF Require Import Base.GeomAST Base.QKernel Base.Planar Model.SetOpSpec Model.OverlayComplex Model.OverlayRings.
+From SF Require Import Base.GeomAST Base.QKernel Base.Planar Model.SetOpSpec Model.OverlayComplex Model.OverlayRings Model.OverlayRenode.
+From SF Require Import Model.OverlayFixup.
 Extraction Language OCaml.
 Extraction "model.ml"
   geom_of_bits xy_finite is_empty
@@ -14,5 +15,8 @@ Extraction "model.ml"
   dcel_ok ranges_ok twin_ok next_prev_ok faces_ok euler_ok labels_ok
   extract_polygons polygon_groups group_rings f64_or0
   faces_selected boundary_edges lines_selected points_selected
+  overlay_skeleton_of rn_all g_elems component_pts spanning_tree_tie half_edges lines_of meet_ok_b isect_agree_b noded_b points_noded_b chain_ok_b pt_eqb
   Qplus Qminus Qmult Qdiv Qopp Qabs.Qabs Qred Qle_bool Qeq_bool inject_Z Qcompare
-  Z.add Z.mul Z.sub Z.of_N Z.opp Z.pow_pos.
+  Z.add Z.mul Z.sub Z.of_N Z.opp Z.pow_pos
+  fixVertices assignFaces faces_of populateInSetLabels fixup pre_wf pre_dirs_ok pre_src_sym pre_srcface_le
+  radialLess sorted_incidents incidents l_next l_prev fo_cycles fo_incident fo_in.
